@@ -88,9 +88,14 @@ pub enum Op {
     Finish,
     FinishWithMessage(String),
     Abandon,
+    AbandonWithMessage(String),
+    SetTabWidth(u8),
     /// set_style with the same style but the other set of tick strings (another cycle length): the spinner
     /// shows string number (ticks so far) mod (new cycle)
     OtherTicks,
+    /// the bar's style goes through another bar with this tab width (set_style there, style() back) before
+    /// it is installed again: what a custom key writes is still expanded at the drawing bar's tab width
+    StyleViaOtherBar(u8),
 }
 
 #[derive(Debug, Clone, Serialize, Deserialize)]
@@ -106,7 +111,7 @@ fn template() -> String {
         "pos", "human_pos", "len", "human_len", "percent", "percent_precise", "bytes", "total_bytes", "decimal_bytes",
         "decimal_total_bytes", "binary_bytes", "binary_total_bytes", "elapsed_precise", "elapsed", "per_sec", "bytes_per_sec",
         "decimal_bytes_per_sec", "binary_bytes_per_sec", "eta_precise", "eta", "duration_precise", "duration", "msg", "prefix",
-        "spinner", "trk",
+        "spinner", "trk", "tabkey",
     ];
     let mut t = String::new();
     for k in plain {
@@ -138,15 +143,18 @@ fn op_strategy() -> BoxedStrategy<Op> {
         2 => prop_oneof![3 => 0u64..1000, 1 => special_u64()].prop_map(Op::SetLen),
         1 => Just(Op::UnsetLen),
         1 => small().prop_map(Op::IncLen),
-        2 => "[a-zA-Z ]{0,12}".prop_map(Op::SetMessage),
+        2 => "[a-zA-Z \t]{0,12}".prop_map(Op::SetMessage),
+        1 => "[a-z\t]{0,6}".prop_map(Op::AbandonWithMessage),
+        1 => (0u8..12).prop_map(Op::SetTabWidth),
         1 => "[a-z]{0,4}".prop_map(Op::SetPrefix),
         3 => Just(Op::Tick),
         1 => Just(Op::Reset),
         1 => Just(Op::ResetEta),
         1 => Just(Op::Finish),
-        1 => "[a-z]{0,6}".prop_map(Op::FinishWithMessage),
+        1 => "[a-z\t]{0,6}".prop_map(Op::FinishWithMessage),
         1 => Just(Op::Abandon),
         1 => Just(Op::OtherTicks),
+        1 => (0u8..12).prop_map(Op::StyleViaOtherBar),
     ]
     .boxed()
 }
@@ -176,6 +184,9 @@ fn run_keys(c: &KeyCase) -> CaseResult {
             let _ = w.write_str("replaced");
         })
         .with_key("trk", Tracker(seen.clone()))
+        .with_key("tabkey", |_: &ProgressState, w: &mut dyn std::fmt::Write| {
+            let _ = w.write_str("a\tb");
+        })
         // registered but not part of the template until the end of the case
         .with_key("trk_unshown", Tracker(unshown.clone()));
     let pb = ProgressBar::with_draw_target(c.len, ProgressDrawTarget::term_like(vt.boxed())).with_position(c.start);
@@ -185,6 +196,8 @@ fn run_keys(c: &KeyCase) -> CaseResult {
     let mut resets = 0u64;
     let mut finished = false;
     let mut alt_ticks = false;
+    let mut tab_width = 8usize;
+    let mut raw_msg = String::new();
     let mut v = Verdict::default();
     let initial = (c.start, c.len);
     let mut changed = false;
@@ -206,9 +219,16 @@ fn run_keys(c: &KeyCase) -> CaseResult {
             Op::Finish => pb.finish(),
             Op::FinishWithMessage(m) => pb.finish_with_message(m.clone()),
             Op::Abandon => pb.abandon(),
+            Op::AbandonWithMessage(m) => pb.abandon_with_message(m.clone()),
+            Op::SetTabWidth(w) => pb.set_tab_width(*w as usize),
             Op::OtherTicks => {
                 let next: &[&str] = if alt_ticks { &TICKS } else { &TICKS2 };
                 pb.set_style(pb.style().tick_strings(next));
+            }
+            Op::StyleViaOtherBar(w) => {
+                let other = ProgressBar::with_draw_target(Some(1), ProgressDrawTarget::hidden()).with_tab_width(*w as usize);
+                other.set_style(pb.style());
+                pb.set_style(other.style());
             }
         })
         .map_err(|p| Fail::new("panic", format!("op #{i} {op:?} panicked: {p}")))?;
@@ -224,7 +244,12 @@ fn run_keys(c: &KeyCase) -> CaseResult {
             }
             Op::ResetEta => {}
             Op::OtherTicks => alt_ticks = !alt_ticks,
-            Op::Finish | Op::FinishWithMessage(_) | Op::Abandon => finished = true,
+            Op::StyleViaOtherBar(w) => v.label_if(*w as usize != tab_width, "style_taken_from_a_bar_with_another_tab_width"),
+            Op::Finish | Op::FinishWithMessage(_) | Op::Abandon | Op::AbandonWithMessage(_) => finished = true,
+            Op::SetTabWidth(w) => {
+                tab_width = *w as usize;
+                trk_ticks += 0;
+            }
         }
         // draw now and read every getter at the same frozen instant
         catch(|| pb.force_draw()).map_err(|p| Fail::new("panic", format!("draw after op #{i} {op:?} panicked: {p}")))?;
@@ -265,8 +290,16 @@ fn run_keys(c: &KeyCase) -> CaseResult {
         eq!("bytes_per_sec", format!("{}/s", HumanBytes(ps as u64)), "rate");
         eq!("binary_bytes_per_sec", format!("{}/s", BinaryBytes(ps as u64)), "rate");
         eq!("decimal_bytes_per_sec", format!("{}/s", DecimalBytes(ps as u64)), "rate");
+        if let Op::SetMessage(m) | Op::FinishWithMessage(m) | Op::AbandonWithMessage(m) = op {
+            raw_msg = m.clone();
+        }
+        // the current message: the text handed over last, its TABs expanded at the bar's tab width
+        let want_msg = model::expand_tabs(&raw_msg, tab_width);
+        ensure!(msg == want_msg, "text", "{ctx}: message() = {msg:?}, the message set last is {raw_msg:?} (tab width {tab_width})");
+        v.label_if(raw_msg.contains('\t') && tab_width != 8, "message_with_a_tab_at_a_non_default_tab_width");
         eq!("msg", msg.clone(), "text");
         eq!("prefix", prefix.clone(), "text");
+        eq!("tabkey", format!("a{}b", " ".repeat(tab_width)), "custom_key_tab");
         {
             let got = field(&lines, "msg5")?;
             model::check_pad(&msg, 5, Align::Center, true, got).map_err(|m| Fail::new("text", format!("{ctx}: {{msg:^5!}}: {m}")))?;
@@ -505,7 +538,7 @@ pub fn property() -> Property {
             cases: |t| t.pick(7_500, 480_000),
             run: run_keys,
             signature: no_signature,
-            essential: &["state_changed_before_draw", "unknown_length", "len_lt_pos", "finished", "eta_nonzero", "rate_nonzero", "elapsed_hours", "reset", "custom_key_shadows_a_built_in_key", "tick_strings_replaced_after_a_full_cycle"],
+            essential: &["state_changed_before_draw", "unknown_length", "len_lt_pos", "finished", "eta_nonzero", "rate_nonzero", "elapsed_hours", "reset", "custom_key_shadows_a_built_in_key", "tick_strings_replaced_after_a_full_cycle", "message_with_a_tab_at_a_non_default_tab_width", "style_taken_from_a_bar_with_another_tab_width"],
             workers: w,
             decode: None,
         }),
